@@ -14,6 +14,7 @@ pub mod c08;
 pub mod c10;
 pub mod c11;
 pub mod c20;
+pub mod c12;
 pub mod c13;
 pub mod c15;
 pub mod c16;
@@ -68,6 +69,7 @@ pub fn run(a: &Args) {
         "c10" => c10::run(a),
         "c11" => c11::run(a),
         "c20" => c20::run(a),
+        "c12" => c12::run(a),
         "c13" => c13::run(a),
         "c15" => c15::run(a),
         "c16" => c16::run(a),
